@@ -52,6 +52,15 @@ def run(ctx):
                 filters.append(ast.Compare(ast.Eq(), I("i1"), ast.BinOp(ast.Add(), ast.BinOp(op(), A, B), ast.Integer(off))))
             filters.append(ast.Compare(ast.Gt(), I("i1"), ast.BinOp(op(), A, B)))
             filters.append(ast.UnaryOp(ast.Not(), ast.Compare(ast.Lt(), I("i2"), ast.BinOp(op(), A, B))))
+    # every spelling of the Boolean literals x eq / ne x operand kind x side (the lexer is case-insensitive; the node keeps the spelling), also inside in-lists
+    for sp in ("true", "TRUE", "True", "tRuE", "false", "FALSE", "False", "fAlSe"):
+        for cmpop in (ast.Eq, ast.NotEq):
+            for operand in (I("b1"), call("contains", I("s1"), S("a")), ast.Compare(ast.Gt(), I("i1"), ast.Integer("0")),
+                            ast.Compare(ast.In(), I("i2"), ast.List([ast.Integer("0"), ast.Integer("7")]))):
+                filters.append(ast.Compare(cmpop(), operand, ast.Boolean(sp)))
+                filters.append(ast.Compare(cmpop(), ast.Boolean(sp), operand))
+        filters.append(ast.Compare(ast.In(), I("b1"), ast.List([ast.Boolean(sp), ast.Boolean("false")])))
+        filters.append(ast.BoolOp(ast.Or(), ast.Compare(ast.Eq(), I("b1"), ast.Boolean(sp)), ast.Compare(ast.Eq(), I("i1"), ast.Integer("7"))))
     # chains of eq / in terms on ONE field joined by `or`, with a null test at every position, plain and negated (a rewrite into IN (...) loses the null test)
     def orchain(terms):
         e = terms[0]
